@@ -425,6 +425,9 @@ func (w *world) churn(n int) {
 				w.waitClosed(c.id, from)
 				w.disconnected++
 				c.online = false
+				// a connection the broker closes may have been sent packets that never reached the client (the close can
+				// overtake them): for the global counters, too, what the clients saw is a lower bound from now on
+				c.killed = true
 			}
 			c.epoch0 = len(c.conns)
 			c.subs = map[string]byte{}
